@@ -560,7 +560,7 @@ class MethodTr:
             a = e.args[0]
             if is_self_attr(a, "_pq"):
                 return f"(PQ.len {env.s}.q)", "nat"
-            x, tx = self.pure(a, env)
+            x, tx = self.pure_shape(a, env)
             if isinstance(tx, tuple) and tx[0] == "list":
                 return f"{x}.length", "nat"
             raise Unsupported("len() of a non-list")
@@ -631,12 +631,21 @@ class MethodTr:
         return out
 
     # -- conditions -> Prop text
+    def pure_shape(self, e, env):
+        """like `pure`, for uses that only look at the length of a list (truth value, len()): a list of
+        references that died with a restructuring of the heap array is still a list of that length"""
+        if isinstance(e, ast.Name) and e.id in env.vars and isinstance(env.vars[e.id].ty, tuple) \
+                and env.vars[e.id].ty[0] == "list":
+            v = env.vars[e.id]
+            return v.lean, v.ty
+        return self.pure(e, env)
+
     def truth(self, e, env):
         if is_self_attr(e, "_pq"):
             return f"0 < PQ.len {env.s}.q"
         if isinstance(e, ast.Constant) and isinstance(e.value, bool):
             return "True" if e.value else "False"
-        x, t = self.pure(e, env)
+        x, t = self.pure_shape(e, env)
         if t == "bool":
             return f"{x} = true"
         if t in ("nat", "int", "rat", "num"):
@@ -1148,6 +1157,17 @@ class MethodTr:
         if len(outer) != 1:
             raise Unsupported("if-test with several calls that have side effects")
         call = outer[0]
+        tst = st.test
+        if isinstance(tst, ast.UnaryOp) and isinstance(tst.op, ast.Not) and isinstance(tst.operand, (ast.BoolOp, ast.UnaryOp)):
+            return self.stmt_if(ast.If(tst.operand, st.orelse or [ast.Pass()], st.body), env, kk)
+        if isinstance(tst, ast.BoolOp):
+            # Python's short-circuit evaluation, spelt out: `if A and B: X else: Y` = `if A: (if B: X else: Y) else: Y`
+            first, rest = tst.values[0], tst.values[1:]
+            rest_t = rest[0] if len(rest) == 1 else ast.BoolOp(tst.op, rest)
+            inner = ast.If(rest_t, st.body, st.orelse)
+            if isinstance(tst.op, ast.And):
+                return self.stmt_if(ast.If(first, [inner], st.orelse), env, kk)
+            return self.stmt_if(ast.If(first, st.body, [inner]), env, kk)
         for n in ast.walk(st.test):
             if isinstance(n, (ast.BoolOp, ast.IfExp)) and any(x is call for x in ast.walk(n)):
                 raise Unsupported("a call with side effects under and/or in an if-test")
